@@ -1,6 +1,7 @@
 """C20 — identical inputs give byte-identical layer and phase outputs: every scenario runs in three
 fresh processes (fresh hash seeds, different work-dir roots, PIDs, start times) and the per-step
 snapshots are compared byte for byte."""
+import json
 import os
 
 import c01
@@ -45,6 +46,10 @@ def widen_c01(steps):
             s["metadata"] = dict(s["metadata"])
             s["metadata"].update(WIDE)
             s["metadata"]["nested"] = dict(WIDE)
+            # (the typed metadata of the harness has a `version` and an unordered map `labels`: a later request that keeps the layer
+            # must leave the file as it is, whatever the buildpack's metadata type would make of it)
+            s["metadata"]["labels"] = dict(WIDE)
+            s["metadata"].setdefault("version", "1.0")
         if s["op"] == "write_env":
             s["entries"] = list(c01.ENV_POOL) + ORDER_SENSITIVE + [("process:p%d" % i, "override", b"K%d" % i, b"v") for i in range(8)]
         if s["op"] == "write_sboms" and s["sboms"]:
@@ -219,9 +224,15 @@ def phase_case(arg):
         st, marker, err = lay.run("detect", lay.detect_args(), lay.env(), script)
         snaps.append(vp.snapshot(lay.root, lambda rel: rel in (b"marker", b"dump.json", b"script.json") or rel.startswith(b"bp")))
         with open(lay.plan, "w") as f:
-            f.write('[[entries]]\nname = "x"\n')
+            # (names required more than once, by several buildpacks: the plan the build logic is shown lists them as the file does, in every process)
+            f.write("".join('[[entries]]\nname = "%s"\n[entries.metadata]\nfrom = %d\n' % (n, k) for k, n in enumerate(["x", "node", "y", "node", "x", "node", "z", "y"])))
         st2, marker2, err2 = lay.run("build", lay.build_args(), lay.env(), script)
-        snaps.append(vp.snapshot(lay.layers))
+        snap = vp.snapshot(lay.layers)
+        try:
+            snap[b"<the buildpack plan the build logic was shown>"] = ("f", 0, json.dumps(json.load(open(lay.dump)).get("plan"), sort_keys=True).encode())
+        except (OSError, ValueError):
+            snap[b"<the buildpack plan the build logic was shown>"] = ("f", 0, b"<no dump>")
+        snaps.append(snap)
         if st != 0 or st2 != 0:
             sh.inconclusive.append("phase run failed (detect %d, build %d): %s %s" % (st, st2, err[-200:], err2[-200:]))
         runs.append(snaps)
